@@ -27,7 +27,7 @@ def miri(name="miri", scale=0.01, shards=4, shards_thorough=16, **kw):
 PROPS = {
     "C01": {
         "level": "exploration",
-        "stages": both("inproc") + [miri("miri-inproc", scale=0.002), native("c01net", sub="c03")],
+        "stages": both("inproc") + [miri("miri-inproc", scale=0.002), native("c01net", sub="c03"), native("c01cli")],
     },
     "C02": {
         "level": "exploration",
